@@ -87,6 +87,8 @@ def gen_scenario(rng):
     if rng.random() < 0.85:
         order.insert(rng.randint(0, len(order)), ("stop",))
     sc = {"transport": transport, "cls": rng.choice(["T", "S"]), "order": order, "nclients": n}
+    if transport == "unix" and rng.random() < 0.35:
+        sc["stale"] = "socket"  # something already sits at the socket path (left by a crashed earlier run)
     if rng.random() < 0.22:
         lines = [rng.choice(["num-running", "num-ended", "is-full", "Num-Running", "  is-locked  ", "num-cancelled"]) for _ in range(rng.randint(0, 3))]
         sc["cli"] = {"lines": lines, "end": rng.choice(["exit", "eof", "EXIT"]), "at": rng.randint(0, len(order))}
@@ -288,7 +290,8 @@ class World:
                     except Exception:  # noqa: BLE001
                         pass
 
-    async def _main2(self):
+    async def start_server(self, clause="C19.returns_task"):
+        """Create the pool and the real control server, await serve_forever(); -> (server, serving task) or None."""
         P, S = self.mods.pool, self.mods.server
         sc = self.sc
         self.pool = P.TaskPool(name="served") if sc["cls"] == "T" else P.SimpleTaskPool(targets.work, name="served")
@@ -300,28 +303,41 @@ class World:
             srv = S.TCPControlServer(self.pool, host="127.0.0.1", port=self.port)
         else:
             self.path = os.path.join(self.tmp, "ctl.sock")
+            if sc.get("stale") == "socket":
+                old = socket.socket(socket.AF_UNIX)
+                old.bind(self.path)
+                old.close()  # the file stays: a dead socket
+                self.sit["C19.stale_socket_file"] += 1
             srv = S.UnixControlServer(self.pool, socket_path=self.path)
         if srv.is_serving():
-            self.violate("C19.returns_task", "is_serving() is true before serve_forever()")
+            self.violate(clause, "is_serving() is true before serve_forever()")
         start = asyncio.ensure_future(srv.serve_forever())
         await self.settle()
         if not start.done():
-            self.violate("C19.returns_task", "await serve_forever() had not returned at the first quiescence with zero clients")
+            self.violate(clause, "await serve_forever() had not returned at the first quiescence with zero clients")
             start.cancel()
-            return
+            return None
         if start.exception() is not None:
-            self.violate("C19.returns_task", f"serve_forever() raised {start.exception()!r}")
-            return
+            self.violate(clause, f"serve_forever() raised {start.exception()!r}")
+            return None
         task = start.result()
         self.serving_task = task if isinstance(task, asyncio.Task) else None
         if not isinstance(task, asyncio.Task) or task.done():
-            self.violate("C19.returns_task", f"serve_forever() returned {task!r} instead of a pending task")
-            return
+            self.violate(clause, f"serve_forever() returned {task!r} instead of a pending task")
+            return None
         if not srv.is_serving():
-            self.violate("C19.returns_task", "is_serving() is false right after serve_forever() returned")
+            self.violate(clause, "is_serving() is false right after serve_forever() returned")
         if sc["transport"] == "unix" and not os.path.exists(self.path):
-            self.violate("C19.returns_task", "the unix socket file does not exist while serving")
+            self.violate(clause, "the unix socket file does not exist while serving")
         self.sit["C19.started." + sc["transport"]] += 1
+        return srv, task
+
+    async def _main2(self):
+        sc = self.sc
+        started = await self.start_server()
+        if started is None:
+            return
+        srv, task = started
         cli = sc.get("cli")
         cli_task = None
         for i, act in enumerate(sc["order"] + [("end",)]):
